@@ -121,7 +121,9 @@ Definition spec_body (h : heap) (params : list name) (body : fbody) (clos : list
   match body with
   | BDotCall p cargs =>
     match spec_path h (zip_params params args) clos p None with
-    | Allowed _ (VFun _ params' body' clos') => spec_body_simple h params' body' clos' (map VInt cargs)
+    | Allowed _ (VFun _ params' body' clos') =>
+      if Nat.eqb (length params') (length cargs)
+      then spec_body_simple h params' body' clos' (map VInt cargs) else NotCallable
     | Allowed _ v => match cargs with [] => Allowed h v | _ => NotCallable end
     | d => d
     end
@@ -130,7 +132,8 @@ Definition spec_body (h : heap) (params : list name) (body : fbody) (clos : list
 
 Definition spec_call (h : heap) (frame : list (name * val)) (p : list name) (args : list Z) : verdict :=
   match spec_path h frame [0%nat] p None with
-  | Allowed _ (VFun _ params body clos) => spec_body h params body clos (map VInt args)
+  | Allowed _ (VFun _ params body clos) =>
+    if Nat.eqb (length params) (length args) then spec_body h params body clos (map VInt args) else NotCallable
   | Allowed _ v => match args with [] => Allowed h v | _ => NotCallable end
   | d => d
   end.
